@@ -59,6 +59,9 @@ def main(argv: List[str]) -> int:
     bad = 0
     jobs = []
     for mid, prop, expect, file, old, new, what in CATALOGUE:
+        if file.endswith(".diff"):  # a patch file under /verif (edits at more than one site)
+            jobs.append((mid, prop, expect, ("patch", str(VERIF / file)), what))
+            continue
         jobs.append((mid, prop, expect, ("replace", file, old, new), what))
     sd = VERIF / "seeded"
     if sd.exists():
